@@ -461,7 +461,7 @@ func TestProp_C13_manager(t *testing.T) {
 			}
 		}()
 		if err := peer.Accept(bound); err != nil {
-			t.Fatalf("manager's node did not connect: %s", err)
+			t.Fatalf("%s: manager's node did not connect: %s", p2p.SetupFailure, err)
 		}
 		stage := rapid.IntRange(0, 2).Draw(t, "stage")
 		if !peer.WaitCommand("version", 1, stageTimeout) {
